@@ -575,6 +575,17 @@ pub fn odd_archives(rng: &mut Rng) -> Vec<(&'static str, Vec<u8>, Vec<u64>, bool
         sec.extend_from_slice(&mid);
         let top = [t(5, 1, 30, 2), SEntry { id: 90, off: mid_off, len: mid.len() as u32, run: 0 }, t(200, 1, 40, 5)];
         out.push(("nested mixed directories", raw_archive(icomp, &top, &sec, &data), vec![5, 90, 91, 100, 110, 200], true));
+        // 6. a leaf whose run reaches past the first id of the next leaf (the next leaf re-addresses part of it)
+        let lx = leaf(&[t(0, 61, 0, 10), t(70, 1, 10, 7)]);
+        let ly = leaf(&[t(30, 3, 50, 5), t(50, 4, 55, 9), t(80, 1, 64, 3)]);
+        let mut lxy = lx.clone();
+        lxy.extend_from_slice(&ly);
+        let two = [SEntry { id: 0, off: 0, len: lx.len() as u32, run: 0 }, SEntry { id: 30, off: lx.len() as u64, len: ly.len() as u32, run: 0 }];
+        out.push(("leaf run reaching past the next leaf", raw_archive(icomp, &two, &lxy, &data), vec![0, 29, 30, 33, 40, 50, 54, 60, 70, 80], false));
+        // 7. a tile entry behind a leaf pointer re-addresses an id that lies inside that leaf (directory order decides)
+        let lz = leaf(&[t(0, 8, 0, 10), t(9, 1, 10, 7)]);
+        let re = [SEntry { id: 0, off: 0, len: lz.len() as u32, run: 0 }, t(5, 1, 100, 8), t(9, 2, 120, 4), t(40, 1, 130, 3)];
+        out.push(("tile entry re-addressing an id of an earlier leaf", raw_archive(icomp, &re, &lz, &data), vec![0, 4, 5, 6, 9, 10, 40], false));
     }
     out
 }
